@@ -273,26 +273,42 @@ open Matrix
 /-! ### the square-root expression of the code, given an LDLᵀ factorisation -/
 
 theorem toM_ldltSqrt {n : Nat} (P L : Mat ℝ n n) (d : Vec ℝ n) :
-    toM (ldltSqrt P L d) = (toM P)ᵀ * toM L * Matrix.diagonal (fun i => Real.sqrt (d i)) := by
+    toM (ldltSqrt P L d) = (toM P)ᵀ * toM L * Matrix.diagonal (fun i => Real.sqrt (max (d i) 0)) := by
   simp only [ldltSqrt, toM_mul, toM_transpose, toM_one, Matrix.mul_one]
   congr 1
+  ext i j
+  simp only [toM_apply, Mat.of_apply, Matrix.diagonal_apply, transc_sqrt]
+  split
+  · congr 1
+    split
+    · rw [max_eq_right (by linarith)]
+    · rw [max_eq_left (by linarith)]
+  · rfl
+
+/-- whatever the pivots (also rounding-negative ones), `S Sᵀ = Pᵀ L D⁺ Lᵀ P` with `D⁺ = max(D, 0)` -/
+theorem ldltSqrt_clamped {n : Nat} (P L : Mat ℝ n n) (d : Vec ℝ n) :
+    toM (ldltSqrt P L d) * (toM (ldltSqrt P L d))ᵀ
+      = (toM P)ᵀ * toM L * Matrix.diagonal (fun i => max (d i) 0) * (toM L)ᵀ * toM P := by
+  rw [toM_ldltSqrt]
+  have hdd : Matrix.diagonal (fun i => Real.sqrt (max (d i) 0)) * Matrix.diagonal (fun i => Real.sqrt (max (d i) 0))
+      = Matrix.diagonal (fun i => max (d i) 0) := by
+    rw [Matrix.diagonal_mul_diagonal]
+    congr 1
+    funext i
+    exact Real.mul_self_sqrt (le_max_right _ _)
+  simp only [Matrix.transpose_mul, Matrix.transpose_transpose, Matrix.diagonal_transpose]
+  calc (toM P)ᵀ * toM L * diagonal (fun i => Real.sqrt (max (d i) 0)) * (diagonal (fun i => Real.sqrt (max (d i) 0)) * ((toM L)ᵀ * toM P))
+      = (toM P)ᵀ * toM L * (diagonal (fun i => Real.sqrt (max (d i) 0)) * diagonal (fun i => Real.sqrt (max (d i) 0))) * ((toM L)ᵀ * toM P) := by
+        simp only [Matrix.mul_assoc]
+    _ = (toM P)ᵀ * toM L * diagonal (fun i => max (d i) 0) * (toM L)ᵀ * toM P := by
+        rw [hdd]; simp only [Matrix.mul_assoc]
 
 theorem ldltSqrt_contract {n : Nat} (P L Q : Mat ℝ n n) (d : Vec ℝ n) (hd : ∀ i, 0 ≤ d i)
     (hQ : (toM P)ᵀ * toM L * Matrix.diagonal (fun i => d i) * (toM L)ᵀ * toM P = toM Q) :
     toM (ldltSqrt P L d) * (toM (ldltSqrt P L d))ᵀ = toM Q := by
-  rw [toM_ldltSqrt, ← hQ]
-  have hdd : Matrix.diagonal (fun i => Real.sqrt (d i)) * Matrix.diagonal (fun i => Real.sqrt (d i))
-      = Matrix.diagonal (fun i => d i) := by
-    rw [Matrix.diagonal_mul_diagonal]
-    congr 1
-    funext i
-    exact Real.mul_self_sqrt (hd i)
-  simp only [Matrix.transpose_mul, Matrix.transpose_transpose, Matrix.diagonal_transpose]
-  calc (toM P)ᵀ * toM L * diagonal (fun i => Real.sqrt (d i)) * (diagonal (fun i => Real.sqrt (d i)) * ((toM L)ᵀ * toM P))
-      = (toM P)ᵀ * toM L * (diagonal (fun i => Real.sqrt (d i)) * diagonal (fun i => Real.sqrt (d i))) * ((toM L)ᵀ * toM P) := by
-        simp only [Matrix.mul_assoc]
-    _ = (toM P)ᵀ * toM L * diagonal (fun i => d i) * (toM L)ᵀ * toM P := by
-        rw [hdd]; simp only [Matrix.mul_assoc]
+  rw [ldltSqrt_clamped, ← hQ]
+  have : (fun i => max (d i) 0) = fun i => d i := by funext i; exact max_eq_left (hd i)
+  rw [this]
 
 /-! ### one step of the simulated trajectory with an additive linear state model -/
 
